@@ -327,3 +327,31 @@ Definition ops_of (v : view) : list vop :=
   | VIpName n => ipname_ops n
   | VLease l => lease_ops l
   end.
+
+(* ---------------------------------------------------------------- census: what is modelled, by name *)
+(* Compared on every run with the source (reflection / go/ast, harness kind "census"): a new exported method
+   of Line or Logger, or a new FastLog implementation anywhere in /repo, disagrees with these lists. *)
+
+(* exported methods of *fastlog.Line, each with the model function that mirrors it *)
+Definition line_methods : list (string * string) :=
+  [("Bool", "f_bool"); ("ByteArray", "f_byte_array"); ("Bytes", "f_bytes"); ("Duration", "f_text"); ("Error", "f_error");
+   ("IP", "f_ip"); ("IPArray", "f_ip_array"); ("IPSlice", "f_ipslice"); ("Int", "f_int"); ("LF", "f_lf"); ("Label", "f_label");
+   ("MAC", "f_mac"); ("Module", "f_module"); ("Sprintf", "f_text"); ("String", "f_string"); ("StringArray", "f_string_array");
+   ("Stringer", "f_stringer"); ("Struct", "VStruct"); ("Time", "f_text"); ("ToString", "to_string"); ("Uint16", "f_uint");
+   ("Uint16Hex", "f_uint16hex"); ("Uint32", "f_uint"); ("Uint8", "f_uint"); ("Uint8Hex", "f_uint8hex"); ("Write", "write_out")]%string.
+
+(* exported methods of *fastlog.Logger: Msg starts a line (msg_line); the others read or set the level and do not format *)
+Definition logger_methods : list (string * string) :=
+  [("Disable", "level"); ("EnableDebug", "level"); ("EnableInfo", "level"); ("IsDebug", "level"); ("IsInfo", "level");
+   ("Level", "level"); ("Msg", "msg_line"); ("SetLevel", "level"); ("SetLevelString", "level")]%string.
+
+(* every FastLog implementation of /repo (non-test files), each with its call-list model *)
+Definition fastlog_impls : list (string * string) :=
+  [("dhcp4_spoofer.Lease", "lease_ops"); ("packet.ARP", "KARP"); ("packet.Addr", "addr_ops"); ("packet.DHCP4", "KDHCP4");
+   ("packet.DNS", "KDNS"); ("packet.DNSEntry", "dnsentry_ops"); ("packet.DNSNameEntry", "dnsname_ops"); ("packet.Ether", "KEther");
+   ("packet.EthernetPause", "KPause"); ("packet.Host", "host_ops"); ("packet.ICMP", "KICMP"); ("packet.ICMP4Redirect", "KRedirect");
+   ("packet.ICMP6NeighborAdvertisement", "KNA"); ("packet.ICMP6NeighborSolicitation", "KNS");
+   ("packet.ICMP6RouterAdvertisement", "KRA"); ("packet.ICMP6RouterSolicitation", "KRS"); ("packet.ICMPEcho", "KICMPEcho");
+   ("packet.IEEE1905", "KIEEE1905"); ("packet.IP4", "KIP4"); ("packet.IP6", "KIP6"); ("packet.IPNameEntry", "ipname_ops");
+   ("packet.LLC", "KLLC"); ("packet.LLDP", "KLLDP"); ("packet.MACEntry", "mac_ops"); ("packet.NameEntry", "name_ops");
+   ("packet.Notification", "notif_ops"); ("packet.RRCP", "KRRCP"); ("packet.SNAP", "KSNAP"); ("packet.UDP", "KUDP")]%string.
